@@ -17,6 +17,7 @@ from happysimulator.core.temporal import Instant
 # Numerical integration / bracket search constants
 _INTEGRATION_TOLERANCE = 1e-10  # Simpson's rule convergence threshold
 _MIN_INTER_ARRIVAL_S = 1e-9  # Floor to prevent zero-delay events
+_MIN_INTER_ARRIVAL_NS = 1  # The same floor on the integer clock: successive arrivals are >= 1 ns apart
 _MAX_EXPLORATION_TIME_S = 3600.0  # Maximum search window (1 hour)
 _MIN_STEP_SIZE = 1e-6  # Minimum geometric expansion step
 from happysimulator.load.profile import ConstantRateProfile, Profile
@@ -54,6 +55,17 @@ class ArrivalTimeProvider(ABC):
         - Return exponential random for Poisson arrivals
         """
 
+    def _not_before_next_tick(self, candidate: Instant) -> Instant:
+        """Clamp a computed arrival to at least one nanosecond after the previous one.
+
+        A gap below the clock resolution (rate above 1e9/s or infinite, a tiny Poisson
+        gap) truncates to the previous arrival's nanosecond, or to the one before it
+        through the float round trip: the source would re-fire at a frozen clock forever,
+        or its next tick would be discarded as time travel and the source would stop.
+        """
+        earliest = Instant(self.current_time.nanoseconds + _MIN_INTER_ARRIVAL_NS)
+        return candidate if candidate >= earliest else earliest
+
     def next_arrival_time(self) -> Instant:
         """Compute the next event arrival time.
 
@@ -75,7 +87,7 @@ class ArrivalTimeProvider(ABC):
             if rate <= 0:
                 raise RuntimeError("Cannot compute arrival with zero or negative rate")
             t_next = t_start_sec + target_area / rate
-            self.current_time = Instant.from_seconds(t_next)
+            self.current_time = self._not_before_next_tick(Instant.from_seconds(t_next))
             logger.debug(
                 "Next arrival computed (fast path): time=%.6f target_area=%.4f", t_next, target_area
             )
@@ -135,7 +147,7 @@ class ArrivalTimeProvider(ABC):
         result = brentq(objective_func, t_low, t_high)
 
         if result.converged:
-            self.current_time = Instant.from_seconds(result.root)
+            self.current_time = self._not_before_next_tick(Instant.from_seconds(result.root))
             logger.debug(
                 "Next arrival computed: time=%.6f target_area=%.4f", result.root, target_area
             )
